@@ -691,3 +691,11 @@ BREAKING += [
                                                      "            try:\n                imm = i.imm.eval(p, ChainMap(constants, labels), i.line)")]),
     ('c3-immequals-live-env', ['C03', 'C04'], [(A, "                imm = i.imm.eval(p, constants, i.line)\n            except AssemblerError:", "                imm = i.imm.eval(p, e, i.line)\n            except AssemblerError:")]),
 ]
+
+
+# variants of the properties that are maintained separately (see the module docstrings)
+from . import variants_c10_c14 as _c10_c14  # noqa: E402
+
+BREAKING += _c10_c14.BREAKING
+PRESERVING += _c10_c14.PRESERVING
+UNDECIDED += _c10_c14.UNDECIDED
